@@ -10,8 +10,15 @@
    about the same bytes (hp / pp of a V/J line, the second field of an I line)
    is only a cross-check: on every case the model's own parse must have the
    same verdict and the same canonical value, else the case is a mismatch.
-   The one oracle left is the float64 view of a number literal outside the
-   exact path (op json_num of the stdlib oracle: strconv.ParseFloat). *)
+   The one oracle left is the float64 view of a number literal that the model
+   does not decide itself (Json.lit_class = NCOracle: the value is not an
+   integer, or is an integer from 2^53 up, or the integer part has more than
+   800 digits; op json_num of the stdlib oracle: strconv.ParseFloat).  The
+   parser is Json.json_parse_x = json_parse_text (num_x oracle): for every
+   other literal (an integer below 2^53 in ANY spelling, zero, underflow,
+   overflow) the oracle is NOT consulted - num_of_literal fails if it is asked
+   about one, and on a case whose tag contains "numx" (the harness families of
+   model-decided spellings) the handler fails if the oracle was asked at all. *)
 let z_of_dec (s : string) : z =
   if s <> "" && s.[0] = '-' then
     (match n_of_dec (String.sub s 1 (String.length s - 1)) with N0 -> Z0 | Npos p -> Zneg p)
@@ -82,8 +89,13 @@ let text_of_lit (l : numlit) : n list =
       | None -> []
       | Some (neg, ds) -> n_of_int 101 :: (if neg then [n_of_int 45] else []) @ ds)
 let num_calls = Hashtbl.create 16
+let oracle_asked = ref 0
 let num_of_literal (l : numlit) : (z * n list) option =
   let key = hexs (text_of_lit l) in
+  (match lit_class l with
+   | NCOracle -> ()
+   | _ -> failwith ("the float oracle is consulted for a literal the model decides itself: " ^ key));
+  incr oracle_asked;
   match Hashtbl.find_opt num_calls key with
   | Some r -> r
   | None ->
@@ -92,7 +104,8 @@ let num_of_literal (l : numlit) : (z * n list) option =
         let i = String.index r 'x' in
         Some (z_of_dec (String.sub r 0 i), unhex (String.sub r (i + 1) (String.length r - i - 1))) in
     Hashtbl.replace num_calls key v; v
-let parse_text (b : n list) : (n list * json) list option = json_parse_text num_of_literal b
+let num_view = num_x num_of_literal
+let parse_text (b : n list) : (n list * json) list option = json_parse_x num_of_literal b
 let show_parse = function None -> "!" | Some f -> canon_fields true f
 (* the correspondence of the text layer: the model's parse of b against what
    structpb.Struct.UnmarshalJSON said (canonical text, "!" = error) *)
@@ -221,7 +234,7 @@ let show_pub (k : pubkey) : string =
    jwk_import_handle_text: the model parses it itself). *)
 let show_handle (oc : hsz -> n list -> bool) (text : n list) (pks : pubkey list) : string =
   let ids = List.mapi (fun i _ -> n_of_int (i + 1)) pks in
-  match jwk_import_handle_text num_of_literal oc ids text with
+  match jwk_import_handle_text num_view oc ids text with
   | None -> failwith "import_handle disagrees with import"
   | Some (ks, prim) ->
     String.concat "," (List.map (fun en ->
@@ -230,7 +243,7 @@ let show_handle (oc : hsz -> n list -> bool) (text : n list) (pks : pubkey list)
         ^ (if en.e_id = prim then "1" else "0")) ks)
 
 let show_import (oc : hsz -> n list -> bool) (text : n list) : string =
-  match jwk_import_text num_of_literal oc text with
+  match jwk_import_text num_view oc text with
   | None -> "rej"
   | Some pks -> "ok " ^ show_handle oc text pks
 
@@ -281,10 +294,25 @@ let handle_import (text : string) (parsed : string) (table : string) : string =
     | None -> failwith ("on_curve asked on a point the harness did not judge: " ^ hsz_name a ^ ":" ^ hexs pt) in
   show_import oc text
 
-let handle (line : string) : string =
+let contains (s : string) (sub : string) : bool =
+  let n = String.length s and m = String.length sub in
+  let rec go i = i + m <= n && (String.sub s i m = sub || go (i + 1)) in
+  go 0
+
+let handle_case (line : string) : string =
   match String.split_on_char '|' line with
   | [_; ("V" | "J" as kind); _; keys; o; tok; sv; hp; pp; _] -> handle_verify kind keys o tok sv hp pp
   | [_; "E"; _; key; ropts; o; _] -> handle_encode key ropts o
   | [_; "X"; keys; _] -> handle_export keys
   | [_; "I"; text; parsed; table; _] -> handle_import text parsed table
   | _ -> failwith "case"
+
+(* a case of a "numx" family: every number literal of its texts is decided by
+   the model; the float oracle must not have been asked *)
+let handle (line : string) : string =
+  let before = !oracle_asked in
+  let obs = handle_case line in
+  let tag = List.nth (String.split_on_char '|' line) (List.length (String.split_on_char '|' line) - 1) in
+  if contains tag "numx" && !oracle_asked <> before then
+    failwith ("the float oracle was asked on a case whose number literals the model must decide itself: " ^ tag);
+  obs
